@@ -5,6 +5,7 @@
 package opengraph
 
 //@ func NewParser(root, timingInfo)
+//@   requires root != nil && timingInfo != nil
 //@   ensures [C14] #required-properties implies(result1 == nil, result0 != nil && result0.propertyTable["title"] != "" && result0.propertyTable["type"] != "" && result0.propertyTable["url"] != "" && len(result0.imageParser.ImageList) > 0)
 //@   ensures [C14] #error-means-no-parser implies(result1 != nil, result0 == nil)
 //@   ensures [C14] #complete-means-accepted implies(ps.propertyTable["title"] != "" && ps.propertyTable["type"] != "" && ps.propertyTable["url"] != "" && len(ps.imageParser.ImageList) > 0, result1 == nil && result0 == ps)
